@@ -1,5 +1,6 @@
 """C04 -- a composite behaves like an array of its units (SH1, S1, RO, U1)."""
 from ..rules import proj_rules as P
+from ..rules import cache_rules as CA
 from ..rules import shape_rules as S
 from ..rules import sibling_rules as SI
 from ..rules.common import u1
@@ -34,6 +35,7 @@ def run(ctx):
     ctx.do(S.rule_sh3)
     ctx.do(S.rule_sh5)
     ctx.do(S.rule_sh7)
+    ctx.do(CA.rule_c2, "ProjectiveObject", scope=ctx.scope(ENTRIES + GEOMETRY))
     ctx.do(SI.rule_mean1, [SI.HYP], min_sites=2)
     ctx.do(S.rule_ax1, [CORE, "geometry_tools/hyperbolic.py", PROJ])
     ctx.do(P.rule_s1, ops=[(PROJ, "ProjectiveObject.reshape"),
